@@ -108,7 +108,10 @@ def check_case(ctx, case):
         Fp = H.run(m_perm, params=perm)
         ctx.check("b:permutation_bit_identical", _same(m_perm, m_multi), case)
     except Exception as e:
-        ctx.check("b:permutation_bit_identical", False, case, key=f"raises/{type(e).__name__}", exc=str(e)[:200])
+        if drive.solver_gave_up(case, e):
+            ctx.count("solver_gave_up_under_user_tolerances")
+        else:
+            ctx.check("b:permutation_bit_identical", False, case, key=f"raises/{type(e).__name__}", exc=str(e)[:200])
     # (d) determinism
     m_again = H.mineral()
     H.run(m_again)
@@ -129,7 +132,10 @@ def check_case(ctx, case):
         H.run(m_fresh, params=freshd)
         ctx.check("e:mutated_params_dict_equals_fresh_dict", _same(m_mut, m_fresh), case, phi=phi, phi2=phi2)
     except Exception as e:
-        ctx.check("e:mutated_params_dict_equals_fresh_dict", False, case, key=f"raises/{type(e).__name__}", exc=str(e)[:200])
+        if drive.solver_gave_up(case, e):
+            ctx.count("solver_gave_up_under_user_tolerances")
+        else:
+            ctx.check("e:mutated_params_dict_equals_fresh_dict", False, case, key=f"raises/{type(e).__name__}", exc=str(e)[:200])
     # (c) interleaving with other minerals and update_all order
     other_phase = H.params["phase_assemblage"][1]
     other_fab = core.MineralFabric.enstatite_AB if other_phase == core.MineralPhase.enstatite else core.MineralFabric.olivine_A
@@ -167,7 +173,10 @@ def check_case(ctx, case):
             ctx.check("c:update_all_order_bit_identical", _same(X1, X2) and _same(Y1, Y2), case)
             ctx.check("c:update_all_same_F", float(np.abs(F1 - F2).max()) <= 2 * tol_of(H.N) * max(1.0, np.abs(F1).max()), case)
         except Exception as e:
-            ctx.check("c:interleaving_completes", False, case, key=f"raises/{type(e).__name__}", exc=str(e)[:200])
+            if drive.solver_gave_up(case, e):
+                ctx.count("solver_gave_up_under_user_tolerances")
+            else:
+                ctx.check("c:interleaving_completes", False, case, key=f"raises/{type(e).__name__}", exc=str(e)[:200])
     if len(ctx.samples) < 3:
         ctx.sample(case, volume_change=dfmax)
 
